@@ -46,6 +46,8 @@ struct Offer {
     /// Registered predecessor at the moment the token was handled, when it was one of several
     /// telegrams consumed in one poll (R3 applied to the telegrams before it).
     ps_model: Option<u8>,
+    /// Nothing else was received in that poll.
+    alone: bool,
     in_ring_pre: bool,
     /// `from` had offered the token before (since the station last became idle).
     offered_before: bool,
@@ -70,6 +72,9 @@ struct St {
     bytes_since_pass: usize,
     /// ... or undecodable data (also older data still in its buffer) was dropped since then.
     garbage_since_pass: bool,
+    /// Destination of the station's last request that expects a reply (and whether it was a GAP
+    /// poll), until something is consumed.
+    awaiting: Option<(u8, bool)>,
     /// Time of the last poll in which the station consumed a valid telegram, or end of its own
     /// last transmission (garbage is ignored: lenient for the claim rule, see DESIGN 6 C11).
     last_valid_activity: u64,
@@ -82,6 +87,7 @@ pub struct HandoverMonitor {
     pub n_accept_ps: u64,
     pub n_accept_second_offer: u64,
     pub n_accept_in_batch: u64,
+    pub n_backoffs: u64,
     pub n_first_offer_refused: u64,
     pub n_claims: u64,
     pub n_retry2: u64,
@@ -119,6 +125,7 @@ impl HandoverMonitor {
                     pre_las: 0,
                     bytes_since_pass: 0,
                     garbage_since_pass: false,
+                    awaiting: None,
                     last_valid_activity: 0,
                 })
                 .collect(),
@@ -126,6 +133,7 @@ impl HandoverMonitor {
             n_accept_ps: 0,
             n_accept_second_offer: 0,
             n_accept_in_batch: 0,
+            n_backoffs: 0,
             n_first_offer_refused: 0,
             n_claims: 0,
             n_retry2: 0,
@@ -204,7 +212,12 @@ impl Monitor for HandoverMonitor {
                             las_model = model_witness(las_model, *sa, *da);
                         }
                     }
-                    self.st[i].last_valid_activity = p.t;
+                    // (a lone 0xE5 dropped from the buffer may have been consumed as a short
+                    // confirmation or flushed with the remains of a timed-out exchange: the log
+                    // cannot tell, so it does not restart the silence)
+                    if !(matches!(frame, Frame::Sc) && self.st[i].awaiting.is_none()) {
+                        self.st[i].last_valid_activity = p.t;
+                    }
                     // anything heard ends a pending pass supervision
                     if let Hs::Passed { to, heard, .. } = &mut self.st[i].hs {
                         if !*heard {
@@ -228,8 +241,31 @@ impl Monitor for HandoverMonitor {
                         self.st[i].offers.clear();
                         self.st[i].offer = None;
                     }
+                    // A token of another station consumed while holding the token: a second token is
+                    // about, the station gives its own up (it backs off into the idle state wherever
+                    // it listens while holding: claim scan, waiting for a reply or a GAP answer).
+                    let mut backed_off_now = false;
+                    if self.st[i].hs == Hs::Holding {
+                        // what the station is waiting for (it only listens while holding the token
+                        // when a reply is outstanding or during the claim scan)
+                        let expected = match (self.st[i].awaiting.take(), frame) {
+                            (Some((a, _)), Frame::Data { da, sa, fc, .. }) => *sa == a && *da == ts && fc & 0x40 == 0,
+                            (Some((_, gap)), Frame::Sc) => !gap,
+                            (None, Frame::Token { .. }) => false,
+                            (None, _) => true,
+                            (Some(_), Frame::Token { .. }) => false,
+                        };
+                        if !expected {
+                            self.st[i].hs = Hs::NotHolding;
+                            self.st[i].offers.clear();
+                            self.st[i].offer = None;
+                            self.n_backoffs += 1;
+                            // (the telegram that causes the back-off is spent on it: not an offer)
+                            backed_off_now = true;
+                        }
+                    }
                     match frame {
-                        Frame::Token { da, sa } if *da == ts && *sa != ts => {
+                        Frame::Token { da, sa } if *da == ts && *sa != ts && !backed_off_now => {
                             let offered_before = self.st[i].offers.contains(sa);
                             let wire_end = src.map(|x| w.bus.borrow().txs[x].end());
                             self.st[i].offer = Some(Offer {
@@ -237,6 +273,7 @@ impl Monitor for HandoverMonitor {
                                 ps_pre: p.pre.ps,
                                 ps_post: p.post.ps,
                                 ps_model,
+                                alone: p.rx.len() == 1,
                                 in_ring_pre: p.pre.in_ring,
                                 offered_before,
                                 last_in_buffer: *last,
@@ -317,6 +354,10 @@ impl Monitor for HandoverMonitor {
         if frame.is_reply() {
             return;
         }
+        s.awaiting = match frame {
+            Frame::Data { da, .. } if frame.request_expecting_reply().is_some() => Some((*da, w.cur_tx_app.is_none() && frame.is_fdl_status_request())),
+            _ => None,
+        };
         let slot = w.slot_ticks(i);
         let cfg = &w.stations[i].cfg;
         // Undecodable data after the pass ends the supervision ("another station is active"): what
@@ -348,8 +389,13 @@ impl Monitor for HandoverMonitor {
                 } else {
                     match &s.offer {
                         Some(o) => {
+                            // the predecessor registered when the token was handled: the model's
+                            // within a batch, the one before the poll for a telegram that came
+                            // alone (afterwards the accepted sender *is* the predecessor), either
+                            // one when part of the batch was undecodable
                             let from_ps = match o.ps_model {
                                 Some(m) => o.from == m,
+                                None if o.alone => o.from == o.ps_pre,
                                 None => o.from == o.ps_pre || o.from == o.ps_post,
                             };
                             if o.ps_model.is_some() {
@@ -554,6 +600,7 @@ impl Monitor for HandoverMonitor {
         s.add("handover.accepted_from_predecessor", self.n_accept_ps);
         s.add("probe.token_accepted_from_new_predecessor_on_second_offer", self.n_accept_second_offer);
         s.add("probe.token_accepted_as_last_of_several_telegrams_in_one_poll", self.n_accept_in_batch);
+        s.add("probe.foreign_token_consumed_while_holding", self.n_backoffs);
         s.add("handover.claims", self.n_claims);
         s.add("probe.second_pass_attempt", self.n_retry2);
         s.add("probe.third_pass_attempt", self.n_retry3);
